@@ -57,7 +57,7 @@ def norm_spec(o, futs):
 
 def channel_part(chk, thorough, wd):
     configs = [(1, [1, 2, 3], 2, 8), (2, [1, 2, 3, 4], 2, 7)] if not thorough else \
-        [(1, [1, 2, 3, 4], 3, 10), (2, [1, 2, 3, 4], 2, 10), (3, [1, 2, 3, 4, 5], 3, 9)]
+        [(1, [1, 2, 3, 4], 3, 8), (2, [1, 2, 3, 4], 2, 9), (3, [1, 2, 3, 4, 5], 3, 8)]
     for cap, futs, max_recv, max_ops in configs:
         tag = f"c{cap}_{len(futs)}_{max_ops}"
         mod, cfg = write_mc(tag, cap, futs, max_recv, max_ops, wd)
